@@ -147,11 +147,13 @@ class C12(F.PropCheck):
     def gen_srv(self, rng, b, rr):
         """one server message (call, payload, tag)"""
         k = K(); x = rng.random()
-        chans = sorted({r[1] for r in b.relays}) + [rng.randrange(0, 8), 255, -1]
         rsch = [b.rs_channel(i) for i in range(len(b.rs))]
+        chans = sorted({r[1] for r in b.relays}) + [rng.randrange(0, 8), 255, -1] + [c_ + 256 for c_ in rsch] + [c_ - 256 for c_ in rsch]
         if x < 0.5:
             ch = rng.choice(rsch * 3 + chans) if (rsch or chans) else 0
-            cmd = rng.choice([k['CMD_ENTER_CFG_MODE']] * 3 + [k['CMD_RECALIBRATE']] * 4 + [0, 1, 8001, 8999, 9001, rng.randrange(-5, 10000)])
+            cmd = rng.choice([k['CMD_ENTER_CFG_MODE']] * 3 + [k['CMD_RECALIBRATE']] * 4 + [0, 1, 8001, 8999, 9001, rng.randrange(-5, 10000)] +
+                             # values that equal a command only after narrowing to 16 / 8 bits
+                             [k['CMD_ENTER_CFG_MODE'] + 65536, k['CMD_RECALIBRATE'] + 65536, k['CMD_ENTER_CFG_MODE'] - 65536, k['CMD_RECALIBRATE'] | 0x10000000])
             auth = rng.choice([0, 0, 0, 1, 1, 2, 255, 128])
             dtype = rng.choice([0, 0, k['DATATYPE_RS_SETTINGS'], k['DATATYPE_RS_SETTINGS'], 1, 999, 1001, -1])
             data = b''
@@ -323,7 +325,7 @@ class C12(F.PropCheck):
                     sched = []          # (offset after the toggle, what)
                     if rng.random() < 0.25 and g >= 20000: sched.append((20000, 'tick'))
                     # fair schedule: an armed input timer does fire within the multi-click window (the scheduler itself is C11's subject)
-                    if g >= 320000: sched.append((320000, 'tick'))
+                    if g >= 320000: sched.append((rng.choice([320000, 320000, 300000, 299999, 300001]), 'tick')); sched.append((320000, 'tick'))
                     if j in at_at: sched.append((at_at[j], 'at'))
                     off = 0
                     for (o_, what) in sorted(sched):
@@ -444,7 +446,7 @@ class C12(F.PropCheck):
         lvl = [0] * nin; since = [None] * nin; changes = [[] for _ in range(nin)]; dirs = [[] for _ in range(nin)]
         cal = {}         # tracked (t1, t2, step) per shutter for finding classification only
         for i in range(len(b.rs)): cal[i] = [b.time1[i] if i < len(b.time1) else 0, b.time2[i] if i < len(b.time2) else 0, 0]
-        maxblank = None
+        maxblank = None; t_cfg = None; n_cfg = None
         def hold_capable(inp):
             return bool(inp['flags'] & k['FLAG_CFG_BTN']) and inp['type'] == k['TYPE_MONOSTABLE'] and \
                    (not (inp['flags'] & k['FLAG_CFG_ON_TOGGLE']) or bool(inp['flags'] & k['FLAG_CFG_ON_HOLD']))
@@ -522,6 +524,7 @@ class C12(F.PropCheck):
                                    'no configuration button held for 5000 ms and no ten quick toggles')
                     else: why = 'event %s' % kd
                     if why: v.append('configuration mode started at t=%d us by event #%d (%s): %s' % (tt, n, kd, why))
+                    if not cfgmode: t_cfg = tt; n_cfg = n
                     cfgmode = True; srpc = False; reg = False
                 elif o[0] == 'CAL':
                     idx = o[1][0]
@@ -546,15 +549,24 @@ class C12(F.PropCheck):
                     res = o[1][3]; unauth = f['auth'] == 0 or (f['cmd'] == k['CMD_ENTER_CFG_MODE'] and f['auth'] != 1)
                     if unauth and f['cmd'] in (k['CMD_ENTER_CFG_MODE'], k['CMD_RECALIBRATE']) and res not in (k['RES_UNAUTHORIZED'], k['RES_NOT_SUPPORTED']):
                         v.append('unauthorised CALCFG request cmd=%d answered with result %d' % (f['cmd'], res))
+                    # the answer must be addressed to the requester and name the channel / command it answers
+                    if unauth and f['cmd'] in (k['CMD_ENTER_CFG_MODE'], k['CMD_RECALIBRATE']) and o[1][:3] != [f['sender'], f['ch'], f['cmd']]:
+                        v.append('unauthorised CALCFG request (sender %d, channel %d, cmd %d) answered to (%d, %d, %d)' %
+                                 (f['sender'], f['ch'], f['cmd'], o[1][0], o[1][1], o[1][2]))
                 elif o[0] == 'FACTORYHOOK':
                     # time of the reset: 500 ms before the restart that follows it (else the end of the event)
                     tf = t
                     for o2 in seg:
                         if o2[0] == 'RESTART': tf = min(t, o2[1][0] - 500000 + tol)
                     okf = (kd == 'BOOT' and flashcfg == 0) or (kd in ('TICK', 'HOLD', 'ADV') and cfgmode and held(tf, True))
+                    # "while ALREADY in configuration mode": not in the very step that enters it (abstract schedule: same event;
+                    # real schedule: the same millisecond)
+                    if okf and kd != 'BOOT' and t_cfg is not None and ((not real and n_cfg == n) or (real and tf <= t_cfg + 1000)): okf = False
                     if not okf: v.append('settings erased (factory defaults) by event #%d (%s) without a factory-reset hold in configuration mode' % (n, kd))
                 elif o[0] == 'CFGFLASH':
                     mask = o[1][2] & 15
+                    if o[1][2] & 32:
+                        v.append('the stored configuration record was destroyed (no valid tag / identity) in event #%d (%s)' % (n, kd))
                     if mask & ~(blank & 15) and not any(x[0] == 'FACTORYHOOK' for x in seg):
                         v.append('stored settings lost (blank mask %d) in event #%d (%s) without factory defaults' % (mask, n, kd))
                 elif o[0] in ('OPMODE', 'ACCEPT') and (o[0] == 'ACCEPT' or o[1] == [2]) and not cfgmode:
